@@ -8,7 +8,7 @@ export GOFLAGS=-mod=mod GOPROXY=off GOSUMDB=off GOTOOLCHAIN=local
 d=$(realpath $1)
 W=/tmp/nv-$$
 git -C /repo worktree add -q --detach $W HEAD || exit 9
-trap 'git -C /repo worktree remove --force $W 2>/dev/null; git -C /repo checkout -q -- . 2>/dev/null' EXIT
+trap 'git -C /repo worktree remove --force $W 2>/dev/null; git -C /repo checkout -q -- . 2>/dev/null; git -C /repo clean -fdq 2>/dev/null' EXIT
 cd $W
 git apply $d/patch.diff || { echo "RESULT patch-does-not-apply"; exit 3; }
 go build ./... 2>/tmp/nv-build.$$ || { echo "RESULT does-not-compile"; head -5 /tmp/nv-build.$$; exit 3; }
